@@ -344,3 +344,65 @@ impl StrInput<'_> {
         self.buffer.len()
     }
 }
+
+/// Native confirmation for a failure that Kani reports inside std (a slicing panic has no harness
+/// assertion to replay): run the method pairs natively on every text of up to 3 characters over a
+/// small alphabet with 1-4 byte characters and report the first panic or disagreement.
+#[cfg(test)]
+#[test]
+fn c10_native_probe() {
+    let alphabet: [&str; 10] = ["a", "-", " ", "\t", "#", "\n", ":", "\u{e9}", "\u{20ac}", "\u{1F600}"];
+    let mut texts: Vec<String> = vec![String::new()];
+    let mut level: Vec<String> = vec![String::new()];
+    for _ in 0..3 {
+        let mut next = Vec::new();
+        for t in &level {
+            for a in alphabet {
+                let mut s = t.clone();
+                s.push_str(a);
+                next.push(s);
+            }
+        }
+        texts.extend(next.iter().cloned());
+        level = next;
+    }
+    for text in &texts {
+        let r = std::panic::catch_unwind(|| {
+            let mut a = StrInput::new(text);
+            let mut d = Defaults(StrInput::new(text));
+            let (mut oa, mut od) = (String::new(), String::new());
+            let ca = a.fetch_while_is_alpha(&mut oa);
+            let cd = d.fetch_while_is_alpha(&mut od);
+            assert!(ca == cd && oa == od && a.buffer == d.0.buffer, "fetch_while_is_alpha differs");
+            let mut a = StrInput::new(text);
+            let mut d = Defaults(StrInput::new(text));
+            assert!(a.skip_while_non_breakz() == d.skip_while_non_breakz() && a.buffer == d.0.buffer, "skip_while_non_breakz differs");
+            let mut a = StrInput::new(text);
+            let mut d = Defaults(StrInput::new(text));
+            assert!(a.skip_while_blank() == d.skip_while_blank() && a.buffer == d.0.buffer, "skip_while_blank differs");
+            for tabs in [SkipTabs::Yes, SkipTabs::No] {
+                let mut a = StrInput::new(text);
+                let mut d = Defaults(StrInput::new(text));
+                let (ca, ra) = a.skip_ws_to_eol(tabs);
+                let (cd, rd) = d.skip_ws_to_eol(tabs);
+                assert!(ra.is_ok() == rd.is_ok() && (ra.is_err() || ca == cd) && a.buffer == d.0.buffer, "skip_ws_to_eol differs");
+            }
+            if !text.is_empty() {
+                let mut a = StrInput::new(text);
+                let mut d = Defaults(StrInput::new(text));
+                a.lookahead(4);
+                d.lookahead(4);
+                if !d.next_is_blank_or_breakz() {
+                    for f in [false, true] {
+                        assert!(a.next_can_be_plain_scalar(f) == d.next_can_be_plain_scalar(f), "next_can_be_plain_scalar differs");
+                    }
+                }
+                assert!(a.next_is_document_indicator() == d.next_is_document_indicator(), "next_is_document_indicator differs");
+            }
+        });
+        if r.is_err() {
+            eprintln!("VERIF-INPUT text={:?}", text);
+            panic!("C10/C01: StrInput panics or disagrees with the default implementation");
+        }
+    }
+}
